@@ -286,10 +286,105 @@ func runC13(tier string, _ []string) int {
 		time.Local = time.FixedZone("verif-11", -11*3600)
 	}
 	c.Extra("process_time_zone", time.Local.String())
-	c.SetRule("per case a fresh instance with a real Rule client (client.NewManager + NewRuleClient) and a PRNG rule: 1-4 conditions mixing point conditions (number > < = !=, on/off, text = != contains; node / type / key filters) and schedule conditions (windows placed around the real UTC now: active, inactive, wrap-around; weekday and date filters), 0-3 set-value actions and 0-2 inactive actions with targets inside and outside the watched subtree; then 30-150 acknowledged batches from matching and non-matching nodes, types and keys with values at and around every threshold (+-eps, +-0, +-Inf) (a third of the points carry timestamps hours behind or ahead of the previous ones) and triggers forced through foreign points to the rule node; the process runs in a time zone whose date differs from the UTC date; about one step in ten edits a condition of the running rule (date list grows / shrinks, weekday switched, threshold or text changed), the model follows the rule.configPoints events. Monitor: the verif hook sites rule.process / rule.send / rule.batchDone give the batches in the order the rule really processed them; a tap on the subjects the rule subscribes to shows which batches were delivered (each must be processed, in that order); a reference model of docs/user/rules.md is stepped over the processed sequence and after every batch compares condition states, rule state and the points the rule emitted; at settled points (marker batches through both input paths) the store content (active flags, action flags, target points with the rule as origin) must equal the model. distinct = (condition kinds/operators present, number of conditions, state transitions seen)")
+	c.SetRule("per case a fresh instance with a real Rule client (client.NewManager + NewRuleClient) and a PRNG rule: 1-4 conditions mixing point conditions (number > < = !=, on/off, text = != contains; node / type / key filters) and schedule conditions (windows placed around the real UTC now: active, inactive, wrap-around; weekday and date filters), 0-3 set-value actions and 0-2 inactive actions with targets inside and outside the watched subtree; then 30-150 acknowledged batches from matching and non-matching nodes, types and keys with values at and around every threshold (+-eps, +-0, +-Inf) (a third of the points carry timestamps hours behind or ahead of the previous ones) and triggers forced through foreign points to the rule node; the process runs in a time zone whose date differs from the UTC date; about one step in ten edits a condition of the running rule (date list grows / shrinks, weekday switched, threshold or text changed), the model follows the rule.configPoints events. Monitor: the verif hook sites rule.process / rule.send / rule.batchDone give the batches in the order the rule really processed them; a tap on the subjects the rule subscribes to shows which batches were delivered (each must be processed, in that order); a reference model of docs/user/rules.md is stepped over the processed sequence and after every batch compares condition states, rule state and the points the rule emitted; at settled points (marker batches through both input paths) the store content (active flags, action flags, target points with the rule as origin) must equal the model. One more rule starts without a schedule condition; its condition is turned into one whose window opens at the next full minute, and it must become active (and run its action) once the clock passes that boundary. distinct = (condition kinds/operators present, number of conditions, state transitions seen)")
 	c.Assume("action executions not associated with a change of rule state are tolerated for trigger batches (configuration changes re-run the current list today); NaN inputs are not generated; condition point types are disjoint from action point types so that the rule's own output never re-enters its conditions")
 	nRules := c.N(40, 800)
 	wd := c.NewWatchdog()
+	// ---- a rule that starts without a schedule condition; its condition is then turned into a schedule
+	// condition by points (the way the UI edits it), with a window that opens at the next full minute:
+	// when the clock passes that boundary the condition and the rule become active without any other event
+	patientRule := make(chan string, 1)
+	go func() {
+		in, err := vlib.StartInstance(vlib.InstCfg{ID: "c13-patient"})
+		if err != nil {
+			c.Inconclusive("patient rule: " + err.Error())
+			patientRule <- ""
+			return
+		}
+		defer in.Stop()
+		nc, err1 := in.Connect()
+		mnc, err2 := in.Connect()
+		if err1 != nil || err2 != nil {
+			patientRule <- ""
+			return
+		}
+		send := func(subj string, pts data.Points) bool {
+			e, err := vlib.SendAck(nc, subj, pts)
+			return err == nil && e == ""
+		}
+		t0 := time.Now()
+		pt := func(t, text string, v float64) data.Point {
+			return data.Point{Type: t, Time: time.Now(), Text: text, Value: v, Origin: "harness"}
+		}
+		ruleID, condID, actID, target := "pr-rule", "pr-cond", "pr-act", "pr-target"
+		okAll := send(vlib.EdgeSubj(target, in.RootID), data.Points{{Type: data.PointTypeTombstone, Time: t0}, {Type: data.PointTypeNodeType, Text: "variable"}}) &&
+			send(vlib.NodeSubj(ruleID), data.Points{pt("description", "patient rule", 0)}) &&
+			send(vlib.EdgeSubj(ruleID, in.RootID), data.Points{{Type: data.PointTypeTombstone, Time: t0}, {Type: data.PointTypeNodeType, Text: data.NodeTypeRule}}) &&
+			send(vlib.NodeSubj(condID), data.Points{pt(data.PointTypeConditionType, data.PointValuePointValue, 0), pt("pointType", "value", 0), pt(data.PointTypeValueType, data.PointValueNumber, 0), pt(data.PointTypeOperator, ">", 0), pt("value", "", 1e9)}) &&
+			send(vlib.EdgeSubj(condID, ruleID), data.Points{{Type: data.PointTypeTombstone, Time: t0}, {Type: data.PointTypeNodeType, Text: data.NodeTypeCondition}}) &&
+			send(vlib.NodeSubj(actID), data.Points{pt(data.PointTypeAction, data.PointValueSetValue, 0), pt(data.PointTypeNodeID, target, 0), pt("pointType", "pset", 0), pt(data.PointTypeValueType, data.PointValueNumber, 0), pt("value", "", 42)}) &&
+			send(vlib.EdgeSubj(actID, ruleID), data.Points{{Type: data.PointTypeTombstone, Time: t0}, {Type: data.PointTypeNodeType, Text: data.NodeTypeAction}})
+		if !okAll {
+			patientRule <- ""
+			return
+		}
+		mgr := client.NewManager(mnc, client.NewRuleClient, nil)
+		mdone := make(chan error, 1)
+		go func() { mdone <- mgr.Run() }()
+		defer func() {
+			mgr.Stop(nil)
+			select {
+			case <-mdone:
+			case <-time.After(30 * time.Second):
+			}
+		}()
+		time.Sleep(3 * time.Second) // the rule client is running (no schedule condition so far)
+		// the window opens at the next full minute that is at least 12 s away, and stays open for two hours
+		now := time.Now().UTC()
+		open := now.Truncate(time.Minute).Add(time.Minute)
+		if open.Sub(now) < 12*time.Second {
+			open = open.Add(time.Minute)
+		}
+		cfg := schedCfg{Start: open.Format("15:04"), End: open.Add(2 * time.Hour).Format("15:04")}
+		cfg.sMin, cfg.eMin = open.Hour()*60+open.Minute(), (open.Hour()*60+open.Minute()+120)%1440
+		if !send(vlib.NodeSubj(condID), data.Points{pt(data.PointTypeConditionType, data.PointValueSchedule, 0), pt(data.PointTypeStart, cfg.Start, 0), pt(data.PointTypeEnd, cfg.End, 0)}) {
+			patientRule <- ""
+			return
+		}
+		read := func(parent, id, typ string) (float64, bool) {
+			ns, err := client.GetNodes(nc, parent, id, "", false)
+			if err != nil || len(ns) != 1 {
+				return 0, false
+			}
+			p, ok := ns[0].Points.Find(typ, "")
+			return p.Value, ok
+		}
+		// before the boundary: inactive
+		time.Sleep(2 * time.Second)
+		if v, ok := read(ruleID, condID, data.PointTypeActive); ok && v != 0 && !refActive(cfg, time.Now()) {
+			patientRule <- fmt.Sprintf("schedule condition active %.0f s before its window opens", time.Until(open).Seconds())
+			return
+		}
+		// after the boundary (the rule looks at its schedule conditions every 10 s): active, action run
+		for time.Now().Before(open.Add(45 * time.Second)) {
+			time.Sleep(time.Second)
+			if time.Now().Before(open.Add(12 * time.Second)) {
+				continue
+			}
+			cv, _ := read(ruleID, condID, data.PointTypeActive)
+			rv, _ := read(in.RootID, ruleID, data.PointTypeActive)
+			tv, tok := read(in.RootID, target, "pset")
+			if cv == 1 && rv == 1 && tok && tv == 42 {
+				c.Count("window_boundary_seen_by_a_converted_condition", 1)
+				patientRule <- ""
+				return
+			}
+		}
+		cv, _ := read(ruleID, condID, data.PointTypeActive)
+		rv, _ := read(in.RootID, ruleID, data.PointTypeActive)
+		tv, tok := read(in.RootID, target, "pset")
+		patientRule <- fmt.Sprintf("45 s after the window %s-%s (UTC) opened, a condition that had been turned into a schedule condition on a running rule is active=%v, the rule active=%v, the action's target holds %v (present=%v)", cfg.Start, cfg.End, cv, rv, tv, tok)
+	}()
 	vlib.Parallel(nRules, 6, func(i int) {
 		r := vlib.NewR(c.Seed, "c13", i)
 		in, err := vlib.StartInstance(vlib.InstCfg{ID: fmt.Sprintf("c13-%d", i)})
@@ -1013,6 +1108,9 @@ func runC13(tier string, _ []string) int {
 			c.Sample(map[string]any{"rule": model, "batches": nB, "transitions": transitions})
 		}
 	})
+	if res := <-patientRule; res != "" {
+		c.Violate("rule:condition-state-wrong:schedule:window-boundary-passes", res, map[string]any{"seed": c.Seed})
+	}
 	c.Require("batches_checked", 500)
 	c.Require("state_transitions", 20)
 	c.Require("store_checks", 10)
